@@ -322,6 +322,15 @@ BUILD = {"line": build_line, "line_dc": build_line, "trafo": build_trafo, "trafo
 
 
 # ------------------------------------------------------------------------------------------------------- oracles
+def fail_once(res, sig, **detail):
+    """one failure per signature and case; further keys with the same signature are listed under `also`"""
+    for s, d in res.failures:
+        if s == sig:
+            d.setdefault("also", []).append(detail.get("key"))
+            return
+    res.fail(sig, **detail)
+
+
 def rule_i(res, case, net, idx, data):
     """(i) every type key that is required or a column of the table: cell == type value"""
     el = case["el"]
@@ -333,13 +342,13 @@ def rule_i(res, case, net, idx, data):
             continue
         if k not in tab.columns:
             if k in G.REQUIRED[el]:
-                res.fail("cell/%s/required/column-missing" % el, key=k)
+                fail_once(res, "cell/%s/required/column-missing" % el, key=k)
             continue
         cell = tab.at[idx, k]
         if not same_value(cell, v):
             how = "not-set" if _isnull(cell) else "wrong-value"
-            res.fail("cell/%s/%s/%s" % (el, G.key_class(el, k), how), key=k, cell=repr(cell), type_value=repr(v),
-                     pre=case["pre"])
+            fail_once(res, "cell/%s/%s/%s" % (el, G.key_class(el, k), how), key=k, cell=repr(cell), type_value=repr(v),
+                      pre=case["pre"])
 
 
 def rule_iii(res, case, net_std, idx, data):
@@ -347,7 +356,7 @@ def rule_iii(res, case, net_std, idx, data):
     (keys for which the creation itself was already reported by rule (i) are not reported a second time)"""
     import pandapower as pp
     el = case["el"]
-    reported = {d.get("key") for s, d in res.failures if s.startswith("cell/")}
+    reported = {k for s, d in res.failures if s.startswith("cell/") for k in [d.get("key")] + d.get("also", [])}
     try:
         with silence():
             net_c, idx_c = BUILD[el](case, "change")
@@ -365,10 +374,10 @@ def rule_iii(res, case, net_std, idx, data):
             continue
         if k not in tc.columns:
             # one root cause (change_std_type loops over the existing columns only): one signature per element
-            res.fail("change/%s/column-not-added" % el, key=k, key_class=G.key_class(el, k), created=repr(ts.at[idx, k]))
+            fail_once(res, "change/%s/column-not-added" % el, key=k, key_class=G.key_class(el, k), created=repr(ts.at[idx, k]))
         elif not same_cell(tc.at[idx_c, k], ts.at[idx, k]):
-            res.fail("change/%s/%s/differs-from-creation" % (el, G.key_class(el, k)), key=k, changed=repr(tc.at[idx_c, k]),
-                     created=repr(ts.at[idx, k]))
+            fail_once(res, "change/%s/%s/differs-from-creation" % (el, G.key_class(el, k)), key=k,
+                      changed=repr(tc.at[idx_c, k]), created=repr(ts.at[idx, k]))
     # documented: "Changes only parameter that are given for the type"
     if list(tc.index) != list(before.index) or [c for c in before.columns if c not in tc.columns]:
         res.fail("change/%s/table-shape" % el)
